@@ -79,6 +79,10 @@ def check_commands(ctx, fn, rule='R-CONSUME'):
                 if c.k == 'BinaryOperator' and c.op == '<' and c.child('rhs').cv is not None and 'end' in c.child('lhs').text():
                     guard = c.child('rhs').cv
                     continue
+                # the same test written the other way round: `if (end - item >= N) go on; else leave`, `if (end - item > N - 1)`
+                if c.k == 'BinaryOperator' and c.op in ('>=', '>') and c.child('rhs').cv is not None and 'end' in c.child('lhs').text() and s.child('else') is not None:
+                    guard = c.child('rhs').cv + (1 if c.op == '>' else 0)
+                    continue
             if s.k == 'CompoundAssignOperator' and s.op == '+=' and lvalue_key(s.child('lhs')) == ikey:
                 adv = s.child('rhs').cv
                 continue
